@@ -28,3 +28,10 @@ claim("C04",
 claim("C05",
       "Decides that every value a device sends is the direct result of one of the three constructors, that each constructor builds a 3-byte `kind|channel, b1, b2` message with a channel-voice kind, and that at every constructor call site the channel nibble is <= 15 and note / velocity / controller-number / pitch-bend bytes are within 0..127 - by dominating range guards, mod-16, counted loops, the tracker container invariant and the Device.channel / velocity field invariants, each of which is established at all its store sites and back to the parser's checks. NOT decided: the value byte of analog Control Change messages (floating-point bound).",
       COMMON_NOTE, "interval reasoning with dominating guards over go/ssa, inductive field/container invariants, who-may-construct/send")
+
+claim("C13",
+      "Decides the exact effect list of Panic (one ControlChange AllNotesOff and a counted loop sending Note Off for exactly notes 0..127, both on the unmodified current channel, executed on every path; nothing else that sends is reachable), that its transitive write set is the MIDI-input highlight map only (replaced by a fresh 16-channel map under its mutex), so trackers/counters/parameters are untouched, and the dispatch table entry. Almost entirely structural; receivers honouring CC 123 is outside.",
+      COMMON_NOTE, "SSA effect inventory + counted-loop range + transitive write-set (call graph) + dominance")
+claim("C14",
+      "Decides on all paths of the key handler and checkExitSequence: insert-before-check on presses, delete and no check on non-presses, signal only after every key of the sequence was found tracked (first miss returns false, empty sequence returns false first, loop covers the whole sequence), the completing press returns without any further effect, other presses proceed to note/action handling, single raiser of the signal.",
+      COMMON_NOTE, "path-effect enumeration over go/ssa with one-level loop unrolling + loop-shape check + who-may-send")
